@@ -35,6 +35,7 @@ hl_method_none = z3.Function('hl_method_none', HL, BOOL)
 hl_method = z3.Function('hl_method', HL, STR)
 hl_cl_none = z3.Function('hl_cl_none', HL, BOOL)
 hl_cl = z3.Function('hl_cl', HL, STR)
+hl_status_nocontent = z3.Function('hl_status_nocontent', HL, BOOL)   # a :status 204/304 field precedes any content-length field
 # flags: client tri-state encoded 0=None 1=True 2=False
 hl_out_ok = z3.Function('hl_out_ok', HL, INT, BOOL, BOOL, BOOL, BOOL)
 hl_in_ok = z3.Function('hl_in_ok', HL, INT, BOOL, BOOL, BOOL, BOOL)
@@ -184,11 +185,11 @@ def h_decode(I, fi, args, kwargs, node):
         return NotImplemented
     enc = _arg(fi, args, kwargs, 1, 'encoding')
     enc = I.unopt(enc, node)
-    USED_MODELS.add('contract: stream._decode_headers == decoded(hl, enc), UnicodeDecodeError iff not decode_ok (verified in layer 2)')
+    USED_MODELS.add('contract: stream._decode_headers == decoded(hl, enc), ProtocolError iff not decode_ok (layer 2: contracts/c_headers.py)')
     o = I.heap.get(hd)
     t = o.fields['t']
     zenc = to_zstr(enc)
-    stages = list(o.fields['stages']) + [(decode_ok(t, zenc), _raise_builtin('UnicodeDecodeError'))]
+    stages = list(o.fields['stages']) + [(decode_ok(t, zenc), _raise_protocol)]
     return new_hdr(I, decoded(t, zenc), stages)
 
 
@@ -204,6 +205,9 @@ def h_init_cl(I, fi, args, kwargs, node):
         I.setattr(selfv, '_expected_content_length', 0, node)
         return None
     t = I.heap.get(hd).fields['t']
+    if I.branch(hl_status_nocontent(t), 'status-204-304'):
+        I.setattr(selfv, '_expected_content_length', 0, node)
+        return None
     if I.branch(hl_cl_none(t), 'no-content-length'):
         return None
     v = I.parse_int(SymStr('bytes', hl_cl(t)), 10, node) if False else None
@@ -248,3 +252,43 @@ def h_count_open(I, fi, args, kwargs, node):
     c = cnt_open(m.dom, st, r)
     I.assume(c >= 0)
     return c
+
+
+# ---- spec-level names of the inbound pipeline (contracts/specfns.py: hdr_in_result / hdr_in_accepts) -------
+def _enc_parts(I, enc):
+    """header_encoding (None | False | str) -> (is_set: z3 Bool, z3 String)"""
+    if enc is None or enc is False:
+        return z3.BoolVal(False), z3.StringVal('')
+    if isinstance(enc, Opt):
+        s, inner = _enc_parts(I, enc.val)
+        return z3.And(z3.Not(zbool(enc.isnone)), s), inner
+    if isinstance(enc, (str, SymStr)):
+        zs = to_zstr(enc)
+        return z3.Length(zs) > 0, zs
+    raise Unsupported('header_encoding value %r' % (enc,))
+
+
+def in_pipeline_terms(I, h, flags, normalize, validate, encoding):
+    t = I.heap.get(h).fields['t']
+    nz, vz = zbool(I.truth(normalize)), zbool(I.truth(validate))
+    es, ez = _enc_parts(I, encoding)
+    h1 = z3.If(nz, norm_in(t), t)
+    ok = z3.And(z3.Implies(vz, hl_in_ok(h1, *_flags(I, flags))), z3.Implies(es, decode_ok(h1, ez)))
+    res = z3.If(es, decoded(h1, ez), h1)
+    return ok, res
+
+
+@hook('spec.specfns.hdr_in_result')
+def h_spec_in_result(I, fi, args, kwargs, node):
+    if not is_hdr(I, args[0]):
+        return NotImplemented
+    ok, res = in_pipeline_terms(I, *args)
+    return new_hdr(I, res)
+
+
+@hook('spec.specfns.hdr_in_accepts')
+def h_spec_in_accepts(I, fi, args, kwargs, node):
+    if not is_hdr(I, args[0]):
+        return NotImplemented
+    ok, res = in_pipeline_terms(I, *args)
+    return ok
